@@ -7,7 +7,7 @@
    comb / fuel / the script [evs] quantify over every reader behaviour (arbitrary
    chunking, 0-byte reads, an error at any offset, data together with EOF/error).
    [matches_desc H dg sz bs] = length bs = sz /\ dg = alg:H alg bs /\ dg is a valid digest. *)
-From Oras Require Import Base.Prelude Generated.GC05 Model.Verify Proofs.Verify Proofs.VerifyComplete Proofs.VerifyProxy Proofs.VerifyFuel Proofs.VerifyConc Proofs.VerifyTop Proofs.VerifyWriter Proofs.VerifyNames Proofs.VerifyFileConc Proofs.VerifyOpts Proofs.VerifyChunk.
+From Oras Require Import Base.Prelude Generated.GC05 Model.Verify Proofs.Verify Proofs.VerifyComplete Proofs.VerifyProxy Proofs.VerifyFuel Proofs.VerifyConc Proofs.VerifyTop Proofs.VerifyWriter Proofs.VerifyNames Proofs.VerifyFileConc Proofs.VerifyOpts Proofs.VerifyChunk Proofs.VerifyEof.
 
 (* ReadAll hands back data only when length and digest match and the reader held
    nothing else *)
@@ -183,6 +183,26 @@ Theorem C05_stores_agree :
      oci_push H comb true fuel s d (mkBase evs None) = (None, (d_dg d, buf) :: s)).
 Proof. exact stores_agree. Qed.
 Print Assumptions C05_stores_agree.
+
+(* readers for which io.EOF is not final, NO side condition on the script: what ReadAll
+   and CopyBuffer accept is exactly what the reader delivers before its first EOF; bytes
+   beyond Size before that EOF are always an error (what lies behind an EOF is never read) *)
+Theorem C05_accepts_exactly_upto_eof :
+  forall (H : str -> str -> str) comb fixed fuel evs bufsz dg sz,
+    (forall buf v, read_all H comb fixed fuel (mkBase evs None) dg sz = ((None, buf), v) -> upto_eof evs = buf) /\
+    (forall out v, copy_buffer H comb fixed fuel (mkBase evs None) bufsz dg sz = ((None, out), v) -> upto_eof evs = out).
+Proof. exact accepts_upto_eof. Qed.
+Print Assumptions C05_accepts_exactly_upto_eof.
+
+Theorem C05_trailing_before_eof_rejected :
+  forall (H : str -> str -> str) comb fuel evs d,
+    (d_sz d < Z.of_nat (length (upto_eof evs)))%Z ->
+    (forall fixed buf v, read_all H comb fixed fuel (mkBase evs None) (d_dg d) (d_sz d) <> ((None, buf), v)) /\
+    (forall bufsz out v, copy_buffer H comb true fuel (mkBase evs None) bufsz (d_dg d) (d_sz d) <> ((None, out), v)) /\
+    (forall fixed m e m', mem_push H comb fixed fuel m d (mkBase evs None) = (e, m') -> e <> None /\ m' = m) /\
+    (forall s e s', oci_push H comb true fuel s d (mkBase evs None) = (e, s') -> e <> None /\ s' = s).
+Proof. exact trailing_before_eof_rejected. Qed.
+Print Assumptions C05_trailing_before_eof_rejected.
 
 (* malformed or unsupported digest, negative size, reader shorter than Size, first
    Size bytes hashing to something else, bytes beyond Size: always an error *)
